@@ -378,6 +378,16 @@ def order(ctx: Any) -> List[Ob]:
     return obs
 
 
+def _snapshot_expr(it: ast.AST, me: str) -> bool:
+    return (
+        isinstance(it, ast.Call)
+        and (
+            (isinstance(it.func, ast.Attribute) and it.func.attr == 'copy' and self_attr(it.func.value, me) == 'listeners')
+            or (isinstance(it.func, ast.Name) and it.func.id in ('list', 'set', 'tuple', 'frozenset', 'sorted') and bool(it.args) and self_attr(it.args[0], me) == 'listeners')
+        )
+    )
+
+
 @rule('C06.SNAPSHOT', 'D', expect_min=2)
 def snapshot(ctx: Any) -> List[Ob]:
     """Both listener loops iterate a copy of the listener set, so adding or
@@ -391,16 +401,27 @@ def snapshot(ctx: Any) -> List[Ob]:
             if not isinstance(lp, (ast.For, ast.comprehension)):
                 continue
             it = lp.iter
-            if not any(self_attr(x, me) == 'listeners' for x in ast.walk(it)):
+            # a listener loop: iterates the listener set, or calls a listener callback on its loop variable
+            calls_cb = isinstance(lp, ast.For) and isinstance(lp.target, ast.Name) and any(isinstance(c, ast.Call) and call_name(c) in ('async_update_records', 'async_update_records_complete') and isinstance(c.func, ast.Attribute) and isinstance(c.func.value, ast.Name) and c.func.value.id == lp.target.id for c in ast.walk(lp))
+            if not any(self_attr(x, me) == 'listeners' for x in ast.walk(it)) and not calls_cb:
                 continue
-            copy = (
-                isinstance(it, ast.Call)
-                and (
-                    (isinstance(it.func, ast.Attribute) and it.func.attr == 'copy' and self_attr(it.func.value, me) == 'listeners')
-                    or (isinstance(it.func, ast.Name) and it.func.id in ('list', 'set', 'tuple', 'frozenset', 'sorted') and it.args and self_attr(it.args[0], me) == 'listeners')
-                )
-            )
-            obs.append(ob(R, f, it, 'listener callbacks run over a snapshot of the listener set', copy))
+            if isinstance(it, ast.Name):
+                # the iterable is a local: every value it can hold must be a snapshot of the listener set taken by this call
+                # (a snapshot kept from the other phase misses listeners added, and still holds listeners removed, in between)
+                from .common import local_defs as _ld
+
+                vals = _ld(f).get(it.id, [])
+
+                def _is_snap(v: Any) -> bool:
+                    return isinstance(v, ast.Call) and ((isinstance(v.func, ast.Attribute) and v.func.attr == 'copy' and self_attr(v.func.value, me) == 'listeners') or (isinstance(v.func, ast.Name) and v.func.id in ('list', 'set', 'tuple', 'frozenset', 'sorted') and bool(v.args) and self_attr(v.args[0], me) == 'listeners'))
+
+                stale = [norm(v) if v is not None else '<unpacked>' for v in vals if not _is_snap(v)]
+                obs.append(ob(R, f, lp, 'listener callbacks run over a snapshot of the listener set taken for this phase', bool(vals) and not stale, f'`{it.id}` can also be {stale}' if stale else ''))
+                copy = None
+            else:
+                copy = _snapshot_expr(it, me)
+            if copy is not None:
+                obs.append(ob(R, f, it, 'listener callbacks run over a snapshot of the listener set', copy))
             # `every registered update listener is called exactly once`: each trip of the loop calls the listener of that trip,
             # whatever the earlier ones did (no early exit, no skipped listener)
             if isinstance(lp, ast.For) and isinstance(lp.target, ast.Name) and f.name in ('async_updates', 'async_updates_complete'):
@@ -665,10 +686,13 @@ def floorflush(ctx: Any) -> List[Ob]:
                 for n in ast.walk(g.node):
                     if isinstance(n, ast.Compare) and isinstance(n.ops[0], (ast.In, ast.NotIn)):
                         atoms[norm(n)] = (in_answers if isinstance(n.ops[0], ast.In) else not in_answers)
-                oc, _ = traces(ctx, g, atoms, eff_m, loop_bound=1)
+                # every loop runs once (one flush key, one cached record of it): the mark is decided by the record alone -- a path
+                # that skips a record which is due (a fast path on how many records the name has, say) leaves it its full TTL
+                oc, und_m = traces(ctx, g, atoms, eff_m, loop_bound=1, for_iter=lambda n, e: True)
                 hit = any('MARK' in t for t in oc)
+                hit_all = bool(oc) and all('MARK' in t for t in oc)
                 want = age > 1000 and not in_answers and not lapsing
-                obs.append(ob(R, g, f'age={age}ms in_datagram={in_answers} {"runs out within the second" if lapsing else "more than a second to live"}', f'marked iff older than 1000 ms, not repeated in the datagram and not running out within the second anyway (expected {want}): the mark only ever shortens a lifetime', hit == want, f'mark reachable: {hit}' + ('; a record whose TTL has elapsed (not purged yet) gets a new lease of one second from every flush' if hit and lapsing else '')))
+                obs.append(ob(R, g, f'age={age}ms in_datagram={in_answers} {"runs out within the second" if lapsing else "more than a second to live"}', f'marked iff older than 1000 ms, not repeated in the datagram and not running out within the second anyway (expected {want}): the mark only ever shortens a lifetime', (hit_all if want else not hit), f'mark reachable: {hit}, on every path: {hit_all}; tests the record does not decide: {und_m}' + ('; a record whose TTL has elapsed (not purged yet) gets a new lease of one second from every flush' if hit and lapsing else '')))
     # the records considered are those of the same name, type and class
     sel = [c for c in ast.walk(g.node) if isinstance(c, ast.Call) and call_name(c) == 'async_all_by_details']
     loops = [n for n in ast.walk(g.node) if isinstance(n, ast.For)]
